@@ -474,6 +474,29 @@ def _unbound(toks, match):
     return errs
 
 
+NEEDS_BODY = {"MATCH", "WHERE", "RETURN", "WITH", "YIELD", "UNWIND", "SET", "REMOVE", "DELETE", "CREATE", "MERGE",
+              "LIMIT", "SKIP", "CALL", "FOREACH"}
+
+
+def _empty_clauses(toks):
+    """a clause keyword that needs a body (WHERE <predicate>, SET <items>, RETURN <columns> ...) directly followed
+    by the next clause keyword, a closing bracket, ';' or the end of the statement"""
+    errs = []
+    for i, t in enumerate(toks):
+        if t.kind != "id" or t.text.upper() not in NEEDS_BODY:
+            continue
+        prev = toks[i - 1] if i else None
+        nxt = toks[i + 1] if i + 1 < len(toks) else None
+        if prev is not None and prev.kind == "p" and prev.text in (".", ":"):
+            continue        # a property / label that happens to be spelled like a keyword
+        if nxt is not None and nxt.kind == "p" and nxt.text in (":", "."):
+            continue        # a map key / a variable spelled like a keyword
+        if nxt is None or (nxt.kind == "p" and (nxt.text in _CLOSE or nxt.text == ";")) or \
+                (nxt.kind == "id" and nxt.text.upper() in CLAUSE_KW):
+            errs.append(("empty-clause", f"{t.text.upper()} at offset {t.pos} has no body"))
+    return errs
+
+
 def lint(text, params):
     """oracle clauses 1-3 on one captured statement -> [(clause, message)]"""
     toks, errs = lex(text)
@@ -481,6 +504,7 @@ def lint(text, params):
     berrs, match = _brackets(toks)
     errs += berrs
     errs += _residue_and_commas(toks)
+    errs += _empty_clauses(toks)
     errs += _params(toks, params if params is not None else {})
     if not any(c in ("unterminated-literal", "unbalanced") for c, _ in errs):
         errs += _unbound(toks, match)
